@@ -174,6 +174,8 @@ class Interp:
             env[pat["name"]] = v
             return True
         if k == "p_path":
+            if isinstance(v, tuple) and len(v) == 3 and v[0] == "variant" and "::" in pat["path"]:
+                return v[1] == pat["path"].split("::")[-1] and not v[2]        # `Name::None` is a variant of its own enum
             if pat["path"].split("::")[-1] == "None":
                 return v is None
             if isinstance(v, tuple) and len(v) == 3 and v[0] == "variant":
